@@ -62,3 +62,62 @@ Qed.
 Lemma zlen_rw_body d o2n b bef pos lit rem skip :
   body_ok b lit rem skip = true -> zlen (fst (rw_body d o2n b bef pos lit rem skip)) = zlen b.
 Proof. apply (zlen_rw_body_n d o2n (length b) b (le_n _)). Qed.
+
+Lemma shape_step {A} (X0 : res (list Z * list A)) (c : Z) X (E : list A) :
+  bind (bind X0 (fun t => Ok (X ++ fst t, E ++ snd t))) (fun t => Ok (c :: fst t, snd t))
+  = bind X0 (fun t => Ok ((c :: X) ++ fst t, E ++ snd t)).
+Proof. destruct X0 as [[a b]| | |]; reflexivity. Qed.
+
+Lemma rev_cons_app (c : Z) X bef : rev (c :: X) ++ bef = rev X ++ c :: bef.
+Proof. cbn [rev]. rewrite <- app_assoc. reflexivity. Qed.
+
+Lemma rscan_body_n d o2n n : o2n_ok o2n -> forall b, (length b <= n)%nat -> forall R bef pos lit rem skip,
+  body_ok b lit rem skip = true -> bytes_ok b ->
+  rscan d o2n (b ++ 0 :: R) bef pos lit rem skip =
+  bind (rscan d o2n (0 :: R) (rev (fst (rw_body d o2n b bef pos lit rem skip)) ++ bef) (pos + zlen b) false false 0)
+       (fun t => Ok (fst (rw_body d o2n b bef pos lit rem skip) ++ fst t,
+                     snd (rw_body d o2n b bef pos lit rem skip) ++ snd t)).
+Proof.
+  intros Ho. induction n as [|n IH]; intros b Hn R bef pos lit rem skip H Hb.
+  - destruct b; [|cbn in Hn; lia]. cbn [body_ok] in H. cbn [app rw_body fst snd rev]. change (zlen (@nil Z)) with 0.
+    replace (pos + 0) with pos by lia. rewrite rscan_zero_state by lia. symmetry. apply bind_eta.
+  - destruct b as [|c r].
+    { cbn [body_ok] in H. cbn [app rw_body fst snd rev]. change (zlen (@nil Z)) with 0.
+      replace (pos + 0) with pos by lia. rewrite rscan_zero_state by lia. symmetry. apply bind_eta. }
+    cbn [length] in Hn. inversion Hb as [|? ? Hc Hr]; subst.
+    cbn [body_ok] in H. cbn [app rscan rw_body]. rewrite zlen_cons.
+    replace (pos + (1 + zlen r)) with (pos + 1 + zlen r) by lia.
+    destruct (0 <? skip) eqn:E.
+    + cbn [fst snd]. rewrite (IH r) by (try lia; assumption). rewrite shape_step. rewrite rev_cons_app. reflexivity.
+    + destruct (c =? 0) eqn:E0; [discriminate|].
+      destruct (c =? 34) eqn:E34.
+      * destruct (negb lit || rem) eqn:Es.
+        -- cbn [fst snd]. rewrite (IH r) by (try lia; assumption). rewrite shape_step. rewrite rev_cons_app. reflexivity.
+        -- apply Z.eqb_eq in E34. subst c. change (34 =? tk_T_UINT) with false. cbv iota.
+           cbn [fst snd]. rewrite (IH r) by (try lia; assumption). rewrite shape_step. rewrite rev_cons_app. reflexivity.
+      * destruct ((c =? tk_REM) && negb lit) eqn:Er.
+        -- destruct (lit || true) eqn:Es; [|destruct lit; discriminate].
+           cbn [fst snd]. rewrite (IH r) by (try lia; assumption). rewrite shape_step. rewrite rev_cons_app. reflexivity.
+        -- destruct (lit || rem) eqn:Es.
+           ++ cbn [fst snd]. rewrite (IH r) by (try lia; assumption). rewrite shape_step. rewrite rev_cons_app. reflexivity.
+           ++ destruct (c =? tk_T_UINT) eqn:Eu.
+              ** apply Z.eqb_eq in Eu. subst c. change (tk_plus_bytes tk_T_UINT) with 2 in H.
+                 apply orb_false_iff in Es as [-> ->].
+                 destruct r as [|lo [|hi r']]; cbn [body_ok] in H; try discriminate.
+                 change (0 <? 2) with true in H. cbv iota in H. change (2 - 1) with 1 in H.
+                 change (0 <? 1) with true in H. cbv iota in H. change (1 - 1) with 0 in H.
+                 cbn [length] in Hn. inversion Hr as [|? ? Hlo Hr2]; subst. inversion Hr2 as [|? ? Hhi Hr3]; subst.
+                 cbn [app]. cbv iota beta zeta.
+                 rewrite pack_H_ok by (apply new_jump_range; [exact Ho | apply unpack_range; assumption]).
+                 cbn [bind fst snd].
+                 rewrite (IH r') by (try lia; assumption).
+                 rewrite bind_assoc. cbn [bind fst snd].
+                 rewrite !zlen_cons.
+                 replace (pos + 1 + (1 + (1 + zlen r'))) with (pos + 3 + zlen r') by lia.
+                 set (w := le2 (new_jump o2n bef (unpack_H lo hi))).
+                 set (rb := rw_body d o2n r' (rev w ++ tk_T_UINT :: bef) (pos + 3) false false 0).
+                 replace (rev (tk_T_UINT :: w ++ fst rb) ++ bef) with (rev (fst rb) ++ rev w ++ tk_T_UINT :: bef).
+                 2:{ cbn [rev]. rewrite rev_app_distr, <- !app_assoc. reflexivity. }
+                 apply bind_ext. intros t. cbn [app]. rewrite <- app_assoc. reflexivity.
+              ** cbn [fst snd]. rewrite (IH r) by (try lia; assumption). rewrite shape_step. rewrite rev_cons_app. reflexivity.
+Qed.
